@@ -39,8 +39,26 @@ def second_config(ctx, prop, pdef, results, extra):
     try:
         F2, d2 = facts.load("all", repo=ctx.repo)
     except facts.ExtractionError as e:
+        # is the configuration buildable at all?  (at the pinned commit the `serde` feature of the data crate does not compile)
+        marker = os.path.join(facts.CACHE, facts.tree_hash("all", ctx.repo) + ".unbuildable")
+        if os.path.exists(marker):
+            extra["configs"] = [{"config": "default features", "bodies": len(ctx.F.fns)},
+                                {"config": "--all-features", "status": "not buildable on this tree (cached verdict): " + open(marker).read()[:200]}]
+            return []
+        td = tempfile.mkdtemp(prefix="gallf-target-")
+        try:
+            pr = subprocess.run(["cargo", "+nightly", "check", "--offline", "--workspace", "--all-features"], cwd=ctx.repo,
+                                env=dict(os.environ, CARGO_TARGET_DIR=td, CARGO_NET_OFFLINE="true"), stdout=subprocess.PIPE, stderr=subprocess.STDOUT, text=True)
+        finally:
+            shutil.rmtree(td, ignore_errors=True)
+        if pr.returncode != 0:
+            open(marker, "w").write(pr.stdout[-300:])
+            extra["configs"] = [{"config": "default features", "bodies": len(ctx.F.fns)},
+                                {"config": "--all-features", "status": "not buildable: plain `cargo check --workspace --all-features` fails on this tree too, so there is no second configuration to analyse",
+                                 "detail": pr.stdout[-300:]}]
+            return []
         extra["configs"] = [{"config": "--all-features", "error": str(e)[-400:]}]
-        return ["extraction with --all-features failed: %s" % str(e)[-200:]]
+        return ["extraction with --all-features failed although the configuration builds: %s" % str(e)[-200:]]
     c2 = MiniCtx(F2, ctx.repo, "thorough")
     have = set(f.key for r in results for f in r.findings)
     added = 0
